@@ -243,6 +243,94 @@ def case_jinvp_sign(H, g):
                     neg_margin=z3.Or(d > z3.RealVal('1/1000'), d < -z3.RealVal('1/1000')))
 
 
+CONFIG_OPS = {'Adj': lambda X, a: X.Adj(a), 'AdjT': lambda X, a: X.AdjT(a), 'Retr': lambda X, a: X.Retr(a), '+': lambda X, a: X + a,
+              'Jinvp': lambda X, a: X.Jinvp(a)}
+
+
+def _config_scenario(g, opname, X, A2, b):
+    """the configurations of one operator: broadcasting one element against a batch of algebra vectors and a batch of elements against
+    one vector (each against the item-by-item calls), and a call after an in-place update of the same object against a fresh object
+    holding the same data.  Returns list of (label, tensor_a, tensor_b) that must agree."""
+    op = CONFIG_OPS[opname]
+    mk = lambda t: pp.LieTensor(t, ltype=GTYPE[g])
+    ten = lambda r: r.tensor() if isinstance(r, pp.LieTensor) else r
+    out = []
+    if opname != '+':
+        # (X + a is clone().add_(a): like every in-place torch op it broadcasts `a` to X's shape only, so one element plus a batch of
+        # vectors raises; Retr broadcasts both ways.  Not claimed as a violation: the documentation of pp.add promises nothing else.)
+        full = ten(op(X, A2))
+        for k in range(2):
+            out.append(('one element x batch of vectors, item %d' % k, full[k], ten(op(X, A2[k]))))
+    X2 = mk(torch.stack([X.tensor(), ten(X + b)]))
+    fullb = ten(op(X2, A2[0]))
+    for k in range(2):
+        out.append(('batch of elements x one vector, item %d' % k, fullb[k], ten(op(X2[k], A2[0]))))
+    Xh = mk(X.tensor().clone())
+    op(Xh, A2[0])
+    Xh.add_(b)
+    out.append(('second call after an in-place update of the element vs fresh object', ten(op(Xh, A2[0])), ten(op(mk(Xh.tensor().clone()), A2[0]))))
+    return out
+
+
+def case_config(H, g, opname):
+    name = 'C05/%s/configurations/%s' % (g, opname)
+    n = ADIM[g]
+
+    def prog(m):
+        X, xs = sym_group(m, g, 'x', 171)
+        A2t = torch.stack([rand_alg(g, 172), rand_alg(g, 173)])
+        a2s = m.symbolic(A2t, 'a')
+        bt = rand_alg(g, 174)
+        bs = m.symbolic(bt, 'b')
+        # one regime: rotations away from the switch-over points (value coverage is the other cases' subject)
+        t, q, s = parts(g, xs)
+        m.ctx.assume += [q[3] > z3.RealVal('1/10'), T.dot(q[:3], q[:3]) > z3.RealVal('1/100')]
+        for vs in (a2s[:n], a2s[n:], bs):
+            ta, ph, sg = aparts(g, vs)
+            m.ctx.assume += [T.dot(ph, ph) > z3.RealVal('1/100'), T.dot(ph, ph) < 1]
+            if sg is not None:
+                m.ctx.assume += [z3.Or(sg > z3.RealVal('1/100'), sg < -z3.RealVal('1/100')), sg < 1, sg > -1]
+        res = _config_scenario(g, opname, X, pp.LieTensor(A2t, ltype=ATYPE[g]), pp.LieTensor(bt, ltype=ATYPE[g]))
+        return [(lab, m.full_terms(a_), m.full_terms(b_)) for lab, a_, b_ in res]
+
+    def replay(model):
+        xv = normalize_group(g, tensor_from_env(['x%d' % i for i in range(GDIM[g])], model))
+        if not model:
+            xv = rand_group(g, 171).tensor() if hasattr(rand_group(g, 171), 'tensor') else rand_group(g, 171)
+        av = tensor_from_env(['a%d' % i for i in range(2 * n)], model).view(2, n)
+        bv = tensor_from_env(['b%d' % i for i in range(n)], model)
+        if not model or float(av.abs().sum()) == 0:
+            av, bv = torch.stack([rand_alg(g, 172), rand_alg(g, 173)]), rand_alg(g, 174)
+        res = _config_scenario(g, opname, pp.LieTensor(xv, ltype=GTYPE[g]), pp.LieTensor(av, ltype=ATYPE[g]), pp.LieTensor(bv, ltype=ATYPE[g]))
+        worst, wl = 0.0, ''
+        for lab, a_, b_ in res:
+            if a_.shape != b_.shape:
+                return True, '%s: shapes %s vs %s' % (lab, tuple(a_.shape), tuple(b_.shape))
+            e = (a_ - b_).abs().max().item()
+            if e > worst:
+                worst, wl = e, lab
+        return worst > 1e-9, '%s %s: %s differs by %.3g at X=%s' % (g, opname, wl, worst, xv.tolist())
+
+    def on_raise(ctx, e):
+        H.absorb(ctx)
+        try:
+            ok, det = replay({})
+        except Exception as e2:
+            ok, det = True, 'raised %s: %s' % (type(e2).__name__, str(e2)[:120])
+        if ok:
+            H.violation('C05/%s/configurations' % g, '%s: %s' % (name, det), {'case': name})
+        else:
+            H.engine_error(name, e)
+
+    for ctx, res in run_paths(H, name, prog, max_paths=16, raised=on_raise):
+        hyp = H.hyps_of(ctx)
+        pn = H.paths
+        for lab, a_, b_ in res:
+            H.prove('%s/path%d/%s/same-length' % (name, pn, lab), [], z3.BoolVal(len(a_) == len(b_)), replay=replay, key='C05/%s/configurations' % g)
+            for i, (l, r) in enumerate(zip(a_, b_)):
+                H.same('%s/path%d/%s[%d]' % (name, pn, lab, i), hyp, l, r, ctx, replay=replay, key='C05/%s/configurations' % g, timeout=10)
+
+
 def run(H):
     H.assumptions += ['exact real arithmetic', 'valid group elements', 'Exp(a) itself is the subject of C01; Log/Exp Jacobians of C04']
     H.bounds += ['single items', 'Jinvp against the derivative of Log(Exp(tau)@X): covered through C04 (Log backward uses the same Jl_inv); here: q/-q '
@@ -257,6 +345,17 @@ def run(H):
             except Exception as e:
                 import traceback; traceback.print_exc()
                 H.engine_error('%s/%s' % (f.__name__, g), e)
+    for g in GROUPS:
+        if only and only not in g:
+            continue
+        for opname in CONFIG_OPS:
+            if H.quick and g in ('RxSO3', 'Sim3') and opname in ('Jinvp',):
+                continue
+            try:
+                case_config(H, g, opname)
+            except Exception as e:
+                import traceback; traceback.print_exc()
+                H.engine_error('config/%s/%s' % (g, opname), e)
     for via in ((False,) if H.quick else (False, True)):
         try:
             case_jr(H, via)
